@@ -29,6 +29,8 @@ CLAUSES = {
     "82": "C08: a send returned PacketIdInUse / an encoder error but its packet was written",
     "131": "C13: at quiescence a task is still parked although the window is open, back-pressure is off and "
            "nothing is outstanding (not one of the recorded findings)",
+    "132": "C13: a streamed chunk send that was parked on write back-pressure is still pending although back-pressure "
+           "has been lifted and the send was polled again",
     "141": "C14: releasing / dropping a QoS 2 receipt did not write exactly one PUBREL with its own id",
     "142": "C14: releasing / dropping a receipt changed the state of another task",
     "143": "C14: a released exchange did not complete on its own PUBCOMP / completed without it",
@@ -178,6 +180,38 @@ def track(ver, case, obs, want):
             return "0,52,%d" % i
         prev_cap, prev_wrb, prev_open, prev_tasks = cap, wrb, is_open, tasks
         prev_streaming = streaming
+    if 13 in want:
+        # streamed sends paused by back-pressure resume when it lifts: a chunk send of task t that was parked
+        # before back-pressure was lifted (8,0), stayed pending throughout and is polled again afterwards (13,t)
+        # must complete
+        heads = []
+        for f in of:
+            po = parse_obs_field(f)
+            heads.append(po)
+        for j in range(len(ops) - 1, 0, -1):
+            op = ops[j]
+            if not op or op[0] != 13 or len(op) < 2 or heads[j] is None:
+                continue
+            key = 100 + op[1]
+            if heads[j][1].get(key) != 1 or heads[j][0][3] or not heads[j][0][7]:
+                continue                      # completed, or back-pressure on again, or closed
+            i = j - 1
+            lifted = None
+            while i >= 0 and heads[i] is not None and heads[i][1].get(key) == 1:
+                if ops[i] and ops[i][0] == 13 and len(ops[i]) > 1 and ops[i][1] == op[1] and i != j \
+                        and (i == 0 or heads[i - 1] is None or heads[i - 1][1].get(key) != 1):
+                    break                     # the op that started this very send
+                # (the PUBLISH of the stream must have been written: the sink is in streaming state; a chunk
+                # send also waits while its PUBLISH is still parked on the window)
+                if ops[i][:2] == [8, 0] and i >= 1 and heads[i - 1] is not None and heads[i - 1][1].get(key) == 1 \
+                        and heads[i - 1][0][3] and heads[i - 1][0][4] and heads[j][0][4] \
+                        and any(ops[k] and ops[k][0] in (1, 2) and len(ops[k]) > 1 and ops[k][1] == op[1]
+                                and heads[k] is not None and any(tag in (PUB1, PUB2) for (tag, _) in heads[k][2])
+                                for k in range(i)):
+                    lifted = i
+                i -= 1
+            if lifted is not None:
+                return "0,132,%d" % j
     if 7 in want and not prev_open:
         polled, pend = G.idle_suffix(case, obs)
         if pend and set(pend) <= polled:
